@@ -1,6 +1,7 @@
 package mon
 
 import (
+	"errors"
 	"crypto/tls"
 	"net"
 	"path/filepath"
@@ -74,6 +75,7 @@ func compose(stream []*model.Rec, comp uint64) [][]*model.Rec {
 }
 
 type c15Fault struct {
+	readTimeout time.Duration // 0: the harness default of 3 s
 	kind string // "", "first-not-soa", "rcode", "id", "idwire", "eof", "alter", "reorder", "unsign", "wrongkey", "emptymac", "extra-after-end"
 	at   int    // envelope index (or octet offset for eof)
 }
@@ -96,7 +98,11 @@ func c15Run(w *core.W, q *dns.Msg, envs [][]*model.Rec, tsig bool, f c15Fault, r
 	if len(envs)%2 == 0 {
 		cl.CloseDelay = 2 * time.Millisecond // closing takes a while: "channel closed" must still imply "connection closed"
 	}
-	tr := &dns.Transfer{Conn: &dns.Conn{Conn: cl}, ReadTimeout: 3 * time.Second}
+	rt := 3 * time.Second
+	if f.readTimeout > 0 {
+		rt = f.readTimeout
+	}
+	tr := &dns.Transfer{Conn: &dns.Conn{Conn: cl}, ReadTimeout: rt}
 	secretB64 := base64.StdEncoding.EncodeToString(c15Secret)
 	if tsig {
 		tr.TsigSecret = map[string]string{c15Key: secretB64}
@@ -598,6 +604,16 @@ func c15Good(w *core.W, s c15Stream, zone model.Name, comp uint64, tsig bool, id
 	res := c15Run(w, s.query(zone, id), envs, tsig, f, 0)
 	if res.skipped {
 		return
+	}
+	if ne, ok := res.lastErr.(net.Error); res.errIndex >= 0 && (ok && ne.Timeout() || errors.Is(res.lastErr, os.ErrDeadlineExceeded)) {
+		// a well-formed transfer ran into the 3 s read timeout: on a machine where goroutines wait seconds for a
+		// processor that says nothing about the library. Once more with a minute; only that verdict counts.
+		w.Count("good_transfers_repeated_after_a_read_timeout", 1)
+		f.readTimeout = time.Minute
+		res = c15Run(w, s.query(zone, id), envs, tsig, f, 0)
+		if res.skipped {
+			return
+		}
 	}
 	w.Eval(1)
 	w.Count("transfers_good", 1)
